@@ -197,3 +197,19 @@ Theorem C04_instantiations_stay_cf_refuted :
   generate f19_reg f19_s (types_equal f19_reg) = Err (EDuplicatePath "a::D").
 Proof. exact (conj f19_RegistryOf f19_facts). Qed.
 Print Assumptions C04_instantiations_stay_cf_refuted.
+
+(** a second refutation, with ONE non-nested definition: [a::D<T, U> { m: BTreeMap<u8, T>, w: Vec<U> }]
+    at [(u16, Vec<(u8, u16)>)] and [(bool, Vec<u32>)].  The entry of [BTreeMap<u8, u16>] has a
+    hidden field of type [Vec<(u8, u16)>] (no component of the source field type, so
+    [instantiation_cf] holds); its id enters the left visited set while the maps are compared, and
+    at [w: Vec<U>] the both-or-neither-visited rule sees (seen, not seen) and answers "different".
+    This is why BTreeMap / BTreeSet with parameters are outside [teq_program_okb]. *)
+Theorem C04_instantiations_stay_cf_refuted_hidden :
+  RegistryOf f19b_defs (label_at f19b_labels) f19b_reg /\
+  instantiation_cf f19b_defs (nth 0 f19b_defs pe_default) f19b_args1 = true /\
+  instantiation_cf f19b_defs (nth 0 f19b_defs pe_default) f19b_args2 = true /\
+  skeleton_consistentb f19b_reg f19_s = true /\
+  types_equal_res f19b_reg 0 7 = Ok false /\ types_equal_res f19b_reg 7 0 = Ok false /\
+  generate f19b_reg f19_s (types_equal f19b_reg) = Err (EDuplicatePath "a::D").
+Proof. exact (conj f19b_RegistryOf f19b_facts). Qed.
+Print Assumptions C04_instantiations_stay_cf_refuted_hidden.
